@@ -190,21 +190,18 @@ def fakeSigConst : Bytes :=
    0x76, 0x3d, 0xd4, 0x2a, 0xdc, 0xf5, 0xe8, 0x80, 0x5d, 0x70, 0x37, 0x37, 0x22, 0xeb, 0xbc, 0xe6,
    0x2a, 0x58, 0xe3, 0xf3, 0x0d, 0xd4, 0x56, 0x0b, 0x9a, 0x89, 0x8b, 0x8c, 0xee, 0xab, 0x6a, 0x03]
 
-/-- `bytes(x & y for x, y in zip(a, b))` -/
-def andBytes (a b : Bytes) : Bytes := List.zipWith (fun x y => x &&& y) a b
+/-- `bytes(x ^ y for x, y in zip(a, b))` (XOR since repair 504b48a; the AND of the pinned tree made placeholder 256 equal
+placeholder 0) -/
+def xorBytes (a b : Bytes) : Bytes := List.zipWith (fun x y => x ^^^ y) a b
 
 /-- body of the loop in `_build_fake_vkey_witnesses` (`i_bytes = i.to_bytes(32, "big")`, defined for i < 2^256) -/
 def fakeWitness (i : Nat) : Witness :=
-  ⟨andBytes fakeVkeyConst (beBytes 32 i), andBytes fakeSigConst (beBytes 32 i ++ beBytes 32 i)⟩
+  ⟨xorBytes fakeVkeyConst (beBytes 32 i), xorBytes fakeSigConst (beBytes 32 i ++ beBytes 32 i)⟩
 
 /-- `NonEmptyOrderedSet(witnesses)` for `n = _witness_count()`: equal items are appended once -/
 def fakeWitnessesN (n : Nat) : List Witness := dedup ((List.range n).map fakeWitness)
 
 def fakeWitnesses (st : State) : List Witness := fakeWitnessesN (witnessCount st)
-
-/-- reads the index back from the last byte of key, first and second half of the signature (`i < 256`) -/
-def fakeIndexLow (w : Witness) : Nat :=
-  ((w.vkey.getD 31 0) ||| (w.sig.getD 31 0) ||| (w.sig.getD 63 0)).toNat
 
 /-! ## the signing loop of `build_and_sign` -/
 
